@@ -67,6 +67,10 @@ class Module:
     def text(self, node):
         return ast.get_source_segment(self.source, node) or ""
 
+    def code(self, node):
+        """source text of node with comments and all whitespace removed"""
+        return "".join(strip_comments(self.text(node)).split())
+
 
 class Program:
     def __init__(self, root=None):
@@ -187,3 +191,39 @@ def const_str(node):
     if isinstance(node, ast.Constant) and isinstance(node.value, str):
         return node.value
     return None
+
+
+def strip_comments(src):
+    """remove # comments (outside string literals) from a source fragment"""
+    out = []
+    i = 0
+    n = len(src)
+    quote = None
+    while i < n:
+        ch = src[i]
+        if quote:
+            if src.startswith(quote, i):
+                out.append(quote)
+                i += len(quote)
+                quote = None
+                continue
+            if ch == "\\" and i + 1 < n:
+                out.append(src[i:i + 2])
+                i += 2
+                continue
+            out.append(ch)
+            i += 1
+            continue
+        if ch in "\"'":
+            q = src[i:i + 3] if src[i:i + 3] in ('"""', "'''") else ch
+            quote = q
+            out.append(q)
+            i += len(q)
+            continue
+        if ch == "#":
+            while i < n and src[i] != "\n":
+                i += 1
+            continue
+        out.append(ch)
+        i += 1
+    return "".join(out)
